@@ -50,9 +50,92 @@ def term_of(fn, e, view_info):
     return ("expr", deep_repr(e))
 
 
-def edge_facts(fn, view_info):
-    """{(switch_bb, target_bb): [(op, lhs_term, rhs_term), ...]}"""
+_OK = ("res", "Ok", None)
+_ERR = ("res", "Err", None)
+_ok_memo = {}
+
+
+def _subst(term, fn, call, g, view_info):
+    """translate a term over g's parameters into a term of the caller at `call` (None if it mentions
+    anything else)"""
+    if isinstance(term, int):
+        return term
+    if not isinstance(term, tuple):
+        return None
+    if term[0] == "constparam":
+        return term
+    if term[0] in ("local", "len") and isinstance(term[1], int) and 1 <= term[1] <= g.argc and term[1] <= len(call.args):
+        a = call.args[term[1] - 1]
+        if term[0] == "local":
+            return term_of(fn, expr_of_operand(fn, a), view_info)
+        ls = list(operand_locals(a))
+        if not ls:
+            return None
+        root, narrowed = view_info(fn, ls[0])
+        return ("len", root) if not narrowed else None
+    if term[0] in ("Add", "Sub", "Mul"):
+        l, r = _subst(term[1], fn, call, g, view_info), _subst(term[2], fn, call, g, view_info)
+        return (term[0], l, r) if l is not None and r is not None else None
+    return None
+
+
+def ok_facts(g, view_info, stack=()):
+    """Facts over g's parameters that hold whenever g returns Ok (intersection over its Ok-capable
+    return definitions of the facts established by the edges dominating each): the Ok-postcondition
+    of a validating helper."""
+    from .expr import result_kind_of_ret
+    key = g.key
+    if key in _ok_memo and _ok_memo[key][0] is g:
+        return _ok_memo[key][1]
+    if g.key in stack or len(stack) > 4 or g.locals[0].get("path") != "std::result::Result":
+        return []
+    ef = edge_facts(g, view_info, stack + (g.key,))
+    res = None
+    for b, kind, e in result_kind_of_ret(g):
+        if kind == "err" or b not in g.reachable(0):
+            continue
+        fs = set()
+        for f_ in facts_at(g, b, ef):
+            try:
+                hash(f_)
+                fs.add(f_)
+            except TypeError:
+                pass
+        res = fs if res is None else (res & fs)
+    out = sorted(res or [], key=repr)
+    _ok_memo[key] = (g, out)
+    return out
+
+
+def edge_facts(fn, view_info, stack=(), interproc=True):
+    """{(switch_bb, target_bb): [(op, lhs_term, rhs_term), ...]}.  Besides the comparisons in this
+    body, the Ok edge of a call to a crate-local Result-returning function carries that function's
+    Ok-postcondition (so validation extracted into a helper guards what follows its `?`)."""
     out = {}
+    prog = fn.prog
+    if prog is not None and interproc:
+        from .expr import decisive_edges
+        for c in fn.calls():
+            if not c.is_local or c.dest["p"]:
+                continue
+            if fn.locals[c.dest["l"]].get("path") != "std::result::Result":
+                continue
+            gs = prog.callee_fns(c)
+            if len(gs) != 1 or not gs[0].blocks:
+                continue
+            post = ok_facts(gs[0], view_info, stack)
+            if not post:
+                continue
+            tr = []
+            for op, l, r in post:
+                l2, r2 = _subst(l, fn, c, gs[0], view_info), _subst(r, fn, c, gs[0], view_info)
+                if l2 is not None and r2 is not None:
+                    tr.append((op, l2, r2))
+            if not tr:
+                continue
+            good, bad = decisive_edges(fn, c, _OK, _ERR)
+            for e_ in good:
+                out.setdefault(e_, []).extend(tr)
     for b in range(fn.n):
         t = fn.blocks[b]["t"]
         if t["k"] != "switch":
